@@ -14,8 +14,8 @@ REPO = "/repo"
 
 FILES = {
     "libxcp/src/operations.rs": ["C02", "C04", "C01", "C03", "C08", "C10", "C13", "C14", "C18", "C12", "C16", "C09", "C06", "C11", "C15"],
-    "libxcp/src/drivers/parfile.rs": ["C04", "C02", "C07", "C12", "C06", "C14", "C03", "C20", "C18"],
-    "libxcp/src/drivers/parblock.rs": ["C04", "C05", "C02", "C07", "C12", "C06", "C18", "C20", "C14", "C03", "C01", "C11"],
+    "libxcp/src/drivers/parfile.rs": ["C04", "C02", "C07", "C12", "C06", "C14", "C03", "C08", "C20", "C18"],
+    "libxcp/src/drivers/parblock.rs": ["C04", "C05", "C02", "C07", "C12", "C06", "C18", "C20", "C14", "C03", "C08", "C01", "C11"],
     "libxcp/src/drivers/mod.rs": ["C02", "C16"],
     "libxcp/src/backup.rs": ["C09", "C03", "C08"],
     "libxcp/src/paths.rs": ["C17", "C02"],
@@ -124,6 +124,8 @@ def run_mutant(k, mut):
         for c in FILES[path]:
             p = subprocess.run([os.path.join(V, "check"), c], env=env2, stdout=subprocess.PIPE, stderr=subprocess.STDOUT, text=True)
             res["checks"][c] = p.returncode
+            if "MODEL-DRIFT" in p.stdout:
+                res.setdefault("drift_reported_by", []).append(c)      # advisory: the Layer-A prediction differs (no VIOLATION)
             if p.returncode == 1:
                 res["status"] = "caught-by:" + c
                 m = re.search(r"^\s*(?:->\s*)?(C\d\d.*)$", p.stdout, re.M)
